@@ -150,6 +150,32 @@ def try_auto(ctx, site):
             h = F.cmp_holds(lits, 'lt', ix, ln)
             if h:
                 return True, 'G2 index < len: ' + _h(b, h)
+            # library contract: Iterator::position / rposition over X.iter() answers Some(i) only with i < X.len()
+            x = ix
+            while x[0] == 'proj' and x[2] in ('@Some', '.0'):
+                x = x[1]
+            if x[0] == 'call' and re.search(r'Iterator::r?position$', x[1]) and x[2] and ln[0] == 'len':
+                it = x[2][0]
+                while it[0] in ('ref', 'deref'):
+                    it = it[1]
+                src = None
+                if it[0] == 'place' and not it[2]:
+                    ds = b.defs().get(it[1], [])
+                    if len(ds) == 1 and ds[0][0] == 'call' and re.search(r'(slice|Vec|VecDeque)::iter$|<impl \[T\]>::iter$|IntoIterator::into_iter$', ds[0][2].callee):
+                        src = F.sym_operand(ds[0][2].args[0])
+                elif it[0] == 'call' and re.search(r'::iter$|IntoIterator::into_iter$', it[1]) and it[2]:
+                    src = it[2][0]
+                if src is not None:
+                    while src[0] in ('ref', 'deref'):
+                        src = src[1]
+                    tgt = ln[1]
+                    while tgt[0] in ('ref', 'deref'):
+                        tgt = tgt[1]
+                    strip = lambda p_: (p_[0], p_[1], tuple(t_ for t_ in p_[2] if t_ != '*')) if p_[0] == 'place' else p_
+                    # the sequence is reached through a shared reference held for the whole function, so its length cannot change in between
+                    shared = src[0] == 'place' and b.locals[src[1]].startswith('&') and not b.locals[src[1]].startswith('&mut')
+                    if strip(src) == strip(tgt) and shared:
+                        return True, 'G2 index is the answer of Iterator::position over the same slice (library contract: < len)'
             return False, 'need %s < %s' % (fmt_sym(b, ix), fmt_sym(b, ln))
         if msg[0] == 'Overflow' and msg[1] == 'Sub' and msg[4].startswith('u'):
             a, c = F.sym_operand(msg[2]), F.sym_operand(msg[3])
@@ -305,6 +331,58 @@ class Dispositions:
             self.used.add(key)
         return e
 
+    @staticmethod
+    def owner(path):
+        """the impl type / module a function lives in: the path without closure suffixes and without its last segment"""
+        p = re.sub(r'(::\{closure#\d+\})+$', '', path)
+        return p.rsplit('::', 1)[0] if '::' in p else p
+
+    def relocated(self, ctx, site, table, live_keys):
+        """A site without an entry under its exact key may be a reviewed site that was moved or respelled by a harmless edit
+        (helper extracted, local renamed, closure turned into a loop).  An entry is carried over when: it is stale (the site it
+        names no longer exists in the current program), it has the same panic kind, it lives in the same impl type / module, its
+        source text is the same or close to this site's, and it is the only such entry.  Premises and caller lists of the entry
+        are still re-checked at the new place by the caller."""
+        import difflib
+        so = self.owner(site.body.path)
+        cands = []
+        for k, e in self.entries.items():
+            parts = k.rsplit('|', 2)
+            if len(parts) != 3 or parts[1] != site.kind or self.owner(parts[0]) != so:
+                continue
+            if k in live_keys or k in self.used:
+                continue
+            if self._still_there(ctx, parts[0], k, table):
+                continue
+            old = parts[2].rsplit('#', 1)[0]
+            sim = 1.0 if old == site.snippet else difflib.SequenceMatcher(None, re.findall(r'\w+|[^\w\s]', old), re.findall(r'\w+|[^\w\s]', site.snippet or '')).ratio()
+            if sim >= 0.6:
+                cands.append((sim, k, e))
+        if not cands:
+            return None
+        cands.sort(key=lambda x: -x[0])
+        if len(cands) > 1 and cands[0][0] - cands[1][0] < 0.05 and cands[0][2].get('reason') != cands[1][2].get('reason'):
+            return None
+        sim, k, e = cands[0]
+        self.used.add(k)
+        e = dict(e); e['relocated_from'] = k
+        return e
+
+    def _still_there(self, ctx, fn_path, key, table):
+        cache = self.__dict__.setdefault('_there', {})
+        if fn_path not in cache:
+            keys = set()
+            b = ctx.db.body(fn_path)
+            if b is not None:
+                insts = ctx.db.inst_by_body.get(b.id) or [None]
+                inst = insts[0]
+                try:
+                    keys = {x.key for x in sites_of_body(ctx, b, inst, table, wide=True)} | {x.key for x in sites_of_body(ctx, b, inst, table, wide=False)}
+                except Exception:
+                    keys = set()
+            cache[fn_path] = keys
+        return key in cache[fn_path]
+
 
 def stable_lit(body, lit):
     """literal rendered without local numbers, for premises in the dispositions table"""
@@ -346,10 +424,12 @@ def run_e1(ctx, roots_pattern, rule='E1-panic', stop_pattern=None, wide=False, e
         for bb, c in db.instances[n].calls.items():
             if c[1] < 0 and c[0] == 'item':
                 ext.add(strip_generics(c[2]))
+    all_sites = {bid: sites_of_body(ctx, db.bodies[bid], db.instances[n], table, wide=wide) for bid, n in bodies.items()}
+    live_keys = {s.key for ss in all_sites.values() for s in ss}
     for bid, n in bodies.items():
         b = db.bodies[bid]
         inst = db.instances[n]
-        body_sites = sites_of_body(ctx, b, inst, table, wide=wide)
+        body_sites = all_sites[bid]
         if not body_sites:
             r.ok(rule, 'body:' + b.path, 'no panic site (assert / panic macro / panicking API call) in this reachable body', status='auto', loc=b.loc)
         for s in body_sites:
@@ -364,13 +444,16 @@ def run_e1(ctx, roots_pattern, rule='E1-panic', stop_pattern=None, wide=False, e
                 r.ok(rule, s.key, '%s discharged by a dominating guard' % s.kind, status='auto', detail=why, loc=s.loc)
                 continue
             d = disp.get(s.key)
+            if d is None and res != 'definite':
+                d = disp.relocated(ctx, s, table, live_keys)
             if res == 'definite':
                 r.fail(rule, s.key, '%s: %s' % (s.kind, why), detail='reached via ' + path, loc=s.loc)
                 continue
             if d is not None and d.get('callers') is not None:
                 # the reason on file speaks about the callers of this function: a new caller voids it
                 allowed = [re.compile(c) for c in d['callers']]
-                extra = sorted(c for c in callers.get(b.path, ()) if not any(rx.search(c) for rx in allowed))
+                moved_from = re.sub(r'(::\{closure#\d+\})+$', '', d['relocated_from'].split('|', 1)[0]) if d.get('relocated_from') else None
+                extra = sorted(c for c in callers.get(b.path, ()) if not any(rx.search(c) for rx in allowed) and re.sub(r'(::\{closure#\d+\})+$', '', c) != moved_from)
                 if extra:
                     r.fail(rule, s.key, '%s: the disposition covers the callers %s but the function is now also called from %s' % (s.kind, d['callers'], extra[0]),
                            detail='reason on file: %s; reached via %s' % (d['reason'], path), loc=s.loc)
@@ -392,7 +475,7 @@ def run_e1(ctx, roots_pattern, rule='E1-panic', stop_pattern=None, wide=False, e
                     else:
                         r.ok(rule, s.key, s.kind + ': ' + d['reason'], status='reviewed', detail='premises re-checked: ' + '; '.join(prem), loc=s.loc)
                 else:
-                    r.ok(rule, s.key, s.kind + ': ' + d['reason'], status='safe-by-review', loc=s.loc)
+                    r.ok(rule, s.key, s.kind + ': ' + d['reason'], status='safe-by-review', detail=('entry carried over from ' + d['relocated_from']) if d.get('relocated_from') else None, loc=s.loc)
                 continue
             r.fail(rule, s.key, '%s reachable from the entry points without a guard or disposition' % s.kind,
                    detail=(why or '') + ' | reached via ' + path, loc=s.loc)
